@@ -28,6 +28,7 @@ RULE_TEXT = (
     "producer-normalised slot | case-significant domain | out of population, else violation; C02.d checks.equal; "
     "C02.e conn.database/schema and status names derive from folded values."
     " C02.h names compared as string literals in generated statements are texts, never rendered identifier nodes."
+    " C02.c also covers keyword regexes (re.search/match on raw text without IGNORECASE)."
 )
 TRUSTED = ["CPython ast", "parser normalisation table, each entry re-witnessed against sqlglot's parser source on every run"]
 
